@@ -27,7 +27,45 @@ func TestSeedRun(t *testing.T) {
 		t.Fatal("unknown world")
 	}
 	seed, _ := strconv.ParseUint(os.Getenv("VERIF_FROM"), 10, 64)
+	if pre := os.Getenv("VERIF_PRERUN"); pre != "" {
+		// run other seeds first in the same process (hunting state that leaks from one run into the next)
+		k, _ := strconv.Atoi(pre)
+		for i := 1; i <= k; i++ {
+			core.RunOne(t, w, core.RunOpts{Seed: seed + uint64(i), Tier: os.Getenv("VERIF_TIER")})
+		}
+	}
 	r := core.RunOne(t, w, core.RunOpts{Seed: seed, Tier: os.Getenv("VERIF_TIER"), KeepCase: true, KeepTrace: os.Getenv("VERIF_TRACE") != ""})
+	if os.Getenv("VERIF_EXPLICIT") != "" {
+		r1 := core.RunOne(t, w, core.RunOpts{Seed: seed, Tier: os.Getenv("VERIF_TIER"), KeepTapes: true, KeepTrace: true})
+		r2 := core.RunOne(t, w, core.RunOpts{Seed: seed, Tier: os.Getenv("VERIF_TIER"), GenVals: r1.GenVals, SchedVals: r1.SchedVals, Explicit: true, KeepTrace: true, KeepTapes: true})
+		fmt.Printf("prng hash %s explicit hash %s; tapes gen %d/%d sched %d/%d\n", r1.TraceHash, r2.TraceHash, len(r1.GenVals), len(r2.GenVals), len(r1.SchedVals), len(r2.SchedVals))
+		for i := 0; i < len(r1.Trace) && i < len(r2.Trace); i++ {
+			if r1.Trace[i] != r2.Trace[i] {
+				fmt.Printf("first difference at trace line %d:\n  %s\n  %s\n", i, r1.Trace[i], r2.Trace[i])
+				break
+			}
+		}
+		for id, a := range r1.WLogs {
+			b := r2.WLogs[id]
+			for i := 0; i < len(a) && i < len(b); i++ {
+				if a[i] != b[i] {
+					lo := i - 6
+					if lo < 0 {
+						lo = 0
+					}
+					fmt.Printf("writes on %s differ at #%d: %v vs %v\n", id, i, a[lo:min(len(a), i+6)], b[lo:min(len(b), i+6)])
+					break
+				}
+			}
+		}
+		for i := 0; i < len(r1.SchedVals) && i < len(r2.SchedVals); i++ {
+			if r1.SchedVals[i] != r2.SchedVals[i] {
+				fmt.Printf("first sched tape difference at %d: %d vs %d\n", i, r1.SchedVals[i], r2.SchedVals[i])
+				break
+			}
+		}
+		return
+	}
 	fmt.Printf("seed=%d steps=%d sim=%dms shape=%s nontrivial=%v\n", seed, r.Steps, r.SimNanos/1e6, r.Shape, r.NonTrivial)
 	fmt.Printf("case=%s\n", r.Case)
 	for _, l := range r.Trace {
